@@ -103,6 +103,8 @@ def run(tier, seed, replay):
     chk.run_contract(E, SR.registry_run())
     return_shapes(chk)
     lexer_exc = raise_sites(chk)
+    from .frames_common import catalogue_names_obligation
+    catalogue_names_obligation(chk)
     # main-loop variant: every primary that matches consumes at least one token (19 progress
     # contracts, each verified against the contracts of the helpers it calls)
     ud = SR.udef_typedef()
@@ -206,11 +208,28 @@ def run(tier, seed, replay):
     for r in rs:
         for v in r["violations"]:
             by_site.setdefault((v["exc"], v["site"]), v)
+    # less common but legal C (GNU attributes in every position, C99 / C11 declarators, designated
+    # initialisers, bit-fields, function pointers, preprocessor corner cases, alternative
+    # spellings ...): as .c and .h, with and without the final newline
+    from .common import native_batch
+    rare = []
+    for t in P.RARE_C:
+        for nm in ("a.c", "a.h"):
+            full = P.header(nm) + "\n" + t
+            rare += [{"op": "pipeline", "text": full, "name": nm, "timeout": 5},
+                     {"op": "pipeline", "text": full.rstrip("\n"), "name": nm, "timeout": 5}]
+    for tk, r in zip(rare, native_batch(rare)):
+        cases += 1
+        if r["exc"]:
+            by_site.setdefault((r["exc"], r.get("exc_site")), {
+                "exc": r["exc"], "site": r.get("exc_site"), "task": {"op": "one", "text": tk["text"], "name": tk["name"]},
+                "what": f"legal C {tk['text'][-60:]!r} as {tk['name']}: exc:{r['exc']}@{r.get('exc_site')} ({r.get('exc_line')})"})
     chk.add_bounded("Lexer + Registry.run (whole pipeline) with a watchdog",
                     "every token-prefix (with / without the final newline) and single-token deletion / duplication of "
                     "the sample files ends in a verdict or a CParsingError",
                     f"{len(files)} files x every {'1st' if thorough else '6th'} token boundary x 2 (with / without final "
-                    f"newline) + {12 if thorough else 3} token edits x 2",
+                    f"newline) + {12 if thorough else 3} token edits x 2; {len(P.RARE_C)} translation units of less common "
+                    "legal C x {.c, .h} x {with, without final newline}",
                     cases, list(by_site.values()), nontrivial=cases,
                     samples=[{"site": f"{k[0]}@{k[1]}"} for k in list(by_site)[:3]], time_s=time.time() - t0)
     for (exc, site), v in sorted(by_site.items(), key=lambda kv: str(kv[0])):
